@@ -25,11 +25,11 @@ def exhaustive_sequences(variant, depth):
         for op in (["try", "unlock"] if held else ["lock", "try"]):
             yield from rec(prefix + [op], op != "unlock")
     for seq in rec([], False):
-        yield ["variant " + variant] + seq
+        yield seq
 
 
 def random_sequence(rng, chk, variant, n, contends):
-    ops = ["variant " + variant]
+    ops = []
     held = False
     for _ in range(n):
         if held:
@@ -54,11 +54,11 @@ def random_sequence(rng, chk, variant, n, contends):
 def script_exhaustive():
     for c0 in CODES:
         for (o1, c1), (o2, c2) in itertools.product(itertools.product(["lock", "try", "unlock"], CODES), repeat=2):
-            yield ["variant posix-script", "new %d" % c0, "%s %d" % (o1, c1), "%s %d" % (o2, c2), "free %d" % c0]
+            yield ["new %d" % c0, "%s %d" % (o1, c1), "%s %d" % (o2, c2), "free %d" % c0]
 
 
 def script_random(rng, chk, n):
-    ops = ["variant posix-script"]
+    ops = []
     for _ in range(n):
         op = rng.choice(["new", "lock", "lock", "try", "try", "unlock", "unlock", "free"])
         c = rng.choice(CODES) if rng.random() < 0.8 else rng.randrange(-5, 140)
@@ -104,7 +104,7 @@ def run(chk):
     fams = {}
     for v in REAL + ["posix-script"]:
         try:
-            fams[v] = diffrun.Family("locks", ac.build_locks(cfg, v), timeout=180)
+            fams[v] = ac.VFamily("locks", ac.build_locks(cfg, v), v, timeout=180)
         except pv.BuildError as e:
             chk.violation(str(e), "C01 harness for %s does not build against the current source" % v, no_input=True, suffix="txt")
     depth = 9 if thorough else 7
@@ -116,17 +116,17 @@ def run(chk):
             ex = list(exhaustive_sequences(v, depth))
             nseq += len(ex)
             # the second thread must block while the lock is held, after lock and after trylock
-            probes = [["variant " + v, "lock", "contend", "try", "unlock"], ["variant " + v, "try", "contend", "lock", "unlock"]]
+            probes = [["lock", "contend", "try", "unlock"], ["try", "contend", "lock", "unlock"]]
             contends = [8 if thorough else 2]
             rnd = [random_sequence(rng, chk, v, rng.choice([5, 20, 60]), contends) for _ in range(1500 if thorough else 200)]
-            cases = [c for c in pv.load_corpus("C01") if c and c[0] == "variant " + v]
-            f, c, t = diffrun.campaign(chk, fams[v], cases + probes + ex + rnd, proof_ok, detail, None, "C01 " + v, batch=400)
+            cases = ac.corpus_for("C01", v)
+            f, c, t = diffrun.campaign(chk, fams[v], cases + probes + ex + rnd, proof_ok, detail, None, "C01 variant=" + v, batch=400)
             found, corr, thm = found or f, corr or c, thm or t
         if "posix-script" in fams:
             sx = list(script_exhaustive())
             srnd = [script_random(rng, chk, rng.choice([6, 30])) for _ in range(2000 if thorough else 300)]
             chk.cov["scripted_codes"] = {"codes": CODES, "exhaustive_cases": len(sx)}
-            f, c, t = diffrun.campaign(chk, fams["posix-script"], sx + srnd, proof_ok, detail, None, "C01 pmutex-posix wrappers", batch=1500)
+            f, c, t = diffrun.campaign(chk, fams["posix-script"], sx + srnd, proof_ok, detail, None, "C01 variant=posix-script (pmutex-posix.c wrappers)", batch=1500)
             found, corr, thm = found or f, corr or c, thm or t
     else:
         detail.append("model driver does not build: no differential run")
@@ -136,6 +136,8 @@ def run(chk):
     if thorough or (need_search and not found):
         found = ac.stress_campaign(chk, cfg, "C01", stress_plan(["c11", "sync", "sim"], thorough), 240 if thorough else 60,
                                    "supporting run" if not need_search else "failing-input search") or found
+    if not proof_ok:
+        chk.cov["broken_theorems"] = ac.name_broken_theorems(detail)
     diffrun.conclude(chk, found, corr, thm, proof_ok and driver_ok, detail, "C01 mutex / spinlock")
     try:
         import extract_atomics
@@ -166,15 +168,14 @@ def run(chk):
 
 
 def replay(chk, path):
-    lines = [l.strip() for l in open(path) if l.strip() and not l.startswith("#")]
-    if not lines or not lines[0].startswith("variant "):
-        print("replay file is not an op file (real-thread programs are rerun with harness/stress.c as described in the file)")
+    variant, lines = ac.replay_file(path)
+    if variant not in ac.LOCK_KINDS or not lines or lines[0].startswith("program:"):
+        print("not an op file (real-thread programs are rerun with harness/stress.c as described in the file)")
         return 2
     cfg = pv.repo_config()
     import extract
     extract.run()
     pv.lake_build(["pvdriver"])
-    fam = diffrun.Family("locks", ac.build_locks(cfg, lines[0].split()[1]))
-    r = diffrun.judge(fam, lines)
+    r = diffrun.judge(ac.VFamily("locks", ac.build_locks(cfg, variant), variant), lines)
     print("agree" if r is None else "%s at op %d: %s" % (r["kind"], r["at"], r["detail"]))
     return 0 if r is None else 1
